@@ -18,7 +18,7 @@ def main():
 
     rng = random.Random(seed)
     for i in range(n):
-        spec = gen_function(rng, force_partial_defaults=(i % 4 == 0), p_default_sentence=0.5 if i % 3 == 2 else 0.0)
+        spec = gen_function(rng, force_partial_defaults=(i % 4 == 0), p_default_sentence=0.5 if i % 3 == 2 else 0.0, p_two_announcements=0.15)
         try:
             ir = parse.function(ast.parse(spec.src).body[0])
             out = repr(ir_jsonable(ir))
